@@ -9,7 +9,7 @@ Decided structurally (Unix path semantics assumed):
      predicate on ".."), so a `..` component can never be appended.
  L3  the loader maps an I/O error to "missing" (Ok(None)) only under `err.kind() == NotFound`.
 """
-from .. import cfg, flow, inline
+from .. import cfg, flow, inline, combinators
 from ..facts import op_place, CheckerBroken
 
 SAFE_JOIN = "minijinja::loader::safe_join"
@@ -379,7 +379,9 @@ def check_safe_join(ctx, prog, fn_path, floor=True):
             cd = flow.cond_of(sj, s)
             if cd.kind != "call" or not cd.call.args:
                 continue
-            recv = {o.key() for o in flow.origins(sj, cd.call.args[0])}
+            # (the segment may be looked at as bytes or chars: `segment.as_bytes().first() == Some(&b'.')`)
+            thru_ = lambda k: 0 if k.name.split("::")[-1] in ("as_bytes", "first", "last", "bytes", "chars", "as_str", "deref") else None
+            recv = {o.key() for o in flow.origins(sj, cd.call.args[0])} | {o.key() for o in flow.origins(sj, cd.call.args[0], through_calls=thru_)}
             other = {o.key() for a in cd.call.args[1:] for o in flow.origins(sj, a)} if len(cd.call.args) > 1 else set()
             if not ((recv | other) & seg_keys):
                 continue
@@ -445,6 +447,11 @@ def check_fs_calls(ctx, prog, allowed_root, floor=True):
                     for o in os_:
                         if o.kind == "call" and o.call.name in joiners(prog) and "as Some" in o.proj:
                             good = True
+                        # `safe_join(..).map_or(Ok(None), |path| read(path))`: the parameter of a closure that a
+                        # combinator runs on the Some of the join
+                        for (h_, r_, var_) in combinators.payload_origins(prog, f, o, through_calls=thru):
+                            if var_ == "Some" and r_.kind == "call" and r_.call.name in joiners(prog) and not r_.proj:
+                                good = True
                     ctx.ob("C17.L1.path-from-safe_join", "%s|%s" % (f.path, nm), good and len(os_) == 1,
                            "path argument origins: %r" % os_, f.where(c.bb))
                     # ... and it is used as the join returned it: nothing in the loader takes the path by `&mut`
@@ -473,6 +480,17 @@ def check_notfound(ctx, prog, floor=True):
                 n += 1
                 ok = False
                 why = []
+                # `safe_join(..).map_or(Ok(None), ..)`: the None is the value a combinator uses when the join is None
+                for c_ in f.calls():
+                    for k_, a_ in enumerate(c_.args):
+                        if combinators.default_binding(c_, k_) != "None":
+                            continue
+                        vals = flow.origins(f, a_)
+                        inner = [x for v_ in vals if v_.kind == "agg" and v_.rv.get("variant") == "Ok" for x in flow.origins(f, v_.rv["ops"][0])]
+                        if any(x.kind == "agg" and x.bb == bb and x.idx == i for x in vals + inner) and any(
+                                r_.kind == "call" and r_.call.name == SAFE_JOIN and not r_.proj for r_ in flow.origins(f, c_.args[0])):
+                            ok = True
+                            why.append("value of %s on a None from safe_join" % c_.name.split("::")[-1])
                 for (sb, taken) in flow.guards(f, bb):
                     cd = flow.cond_of(f, sb)
                     if cd.kind == "discr":
